@@ -768,6 +768,39 @@ func Build(s *Scenario) (*Chain, error) {
 					x := *inByID[se.DupOf]
 					x.ID = se.ID
 					ie = &x
+					// a third party's altered copy of an existing entry (same content, salt and signature)
+					if se.Mut != "" {
+						cp.ExtIDs = append([][]byte{}, orig.ExtIDs...)
+						switch {
+						case se.Mut == "recbyte" && len(cp.ExtIDs) >= 3:
+							sg := append([]byte{}, cp.ExtIDs[2]...)
+							sg[len(sg)-1] ^= 0x01
+							cp.ExtIDs[2] = sg
+							x.Auth = "RecoveryByteAltered"
+						case strings.HasPrefix(se.Mut, "flip:"):
+							pp := strings.Split(se.Mut, ":")
+							bit, _ := strconv.Atoi(pp[2])
+							switch pp[1] {
+							case "content":
+								cb := append([]byte{}, cp.Content...)
+								flipBit(cb, bit)
+								cp.Content = cb
+							default:
+								i := int(pp[1][3] - '0')
+								if i < len(cp.ExtIDs) {
+									b := append([]byte{}, cp.ExtIDs[i]...)
+									flipBit(b, bit)
+									cp.ExtIDs[i] = b
+								}
+							}
+							x.Auth = "flip"
+							if x.Key == "rcde" && pp[1] == "ext2" && len(orig.ExtIDs) >= 3 && bit%(len(orig.ExtIDs[2])*8)/8 == len(orig.ExtIDs[2])-1 {
+								x.Auth = "RecoveryByteAltered"
+							}
+						default:
+							return nil, fmt.Errorf("h=%d entry %s: mutation %q not supported on copies", h, se.ID, se.Mut)
+						}
+					}
 				} else {
 					ent, ie, err = c.buildTxEntry(h, se, rng)
 					if err != nil {
